@@ -46,6 +46,15 @@ pub fn make_world(cfg: &Cfg, rng: Option<&mut Rng>) -> Result<Box<dyn World>, St
     })
 }
 
+/// Upper bound on generated history length (set for the Miri spot check, where a run costs seconds).
+pub static MAX_LEN: std::sync::atomic::AtomicUsize = std::sync::atomic::AtomicUsize::new(usize::MAX);
+
+pub fn apply_tier_limits(tier: Option<&str>) {
+    if tier == Some("miri") {
+        MAX_LEN.store(40, std::sync::atomic::Ordering::Relaxed);
+    }
+}
+
 pub fn run_seed(master: u64, prop: &str, index: u64) -> u64 {
     mix(master, str_stream(prop), index)
 }
@@ -105,7 +114,7 @@ pub fn generate(prop: &str, master: u64, index: u64, thorough: bool, ctx: &mut R
         Err(e) => return (trace, Outcome::Inconclusive(e)),
     };
     let preset: Option<Vec<Step>> = if plan.bulk.is_some() { Some(bulk_steps(&plan, &mut r)) } else { None };
-    let len = preset.as_ref().map(|p| p.len()).unwrap_or(plan.len);
+    let len = preset.as_ref().map(|p| p.len()).unwrap_or(plan.len.min(MAX_LEN.load(std::sync::atomic::Ordering::Relaxed)));
     for i in 0..len {
         let step = match preset.as_ref() {
             Some(p) => p[i].clone(),
@@ -139,6 +148,44 @@ pub fn generate(prop: &str, master: u64, index: u64, thorough: bool, ctx: &mut R
 /// through the contract sanitiser and dropped when it is not legal in the
 /// model state reached so far. Returns the outcome and the steps executed.
 pub fn replay(trace: &Trace, ctx: &mut RunCtx) -> (Outcome, Vec<Step>) {
+    let (out, executed) = replay_inner(trace, ctx);
+    // C18 (rule 8): a failure in a run with an injected panic counts only if the
+    // panic is its cause. Control runs: the same executed history with the
+    // post-panic checks but without the panic, and the history in which the
+    // faulted operation is replaced by a neutral one carrying the same checks.
+    if trace.cfg.has(O_TORN) {
+        if let Outcome::Fail(f, at) = &out {
+            if let Some(i) = executed.iter().position(|s| matches!(s.panic_at, Some(j) if j != crate::op::CONTROL)) {
+                let neutral = match trace.cfg.world {
+                    WorldKind::Key | WorldKind::Seg => Op::Tick { dt: 0 },
+                    _ => Op::OEmpty,
+                };
+                let mut c1 = Trace { cfg: trace.cfg.clone(), steps: executed.clone() };
+                c1.steps[i].panic_at = Some(crate::op::CONTROL);
+                let mut c2 = Trace { cfg: trace.cfg.clone(), steps: executed.clone() };
+                c2.steps[i] = Step { op: neutral, panic_at: Some(crate::op::CONTROL) };
+                for c in [c1, c2] {
+                    log_line(ctx, "control-run");
+                    let mut sub = RunCtx::new();
+                    sub.collect_shapes = false;
+                    sub.trace_log = ctx.trace_log.take();
+                    let (oc, _) = replay_inner(&c, &mut sub);
+                    ctx.trace_log = sub.trace_log.take();
+                    if let Outcome::Fail(fc, _) = oc {
+                        if fc.oracle == f.oracle && fc.class == f.class {
+                            ctx.stats.bump("c18.failure_not_caused_by_the_fault");
+                            let _ = at;
+                            return (Outcome::Inconclusive(format!("fails with and without the injected panic: {}", f.detail)), executed);
+                        }
+                    }
+                }
+            }
+        }
+    }
+    (out, executed)
+}
+
+fn replay_inner(trace: &Trace, ctx: &mut RunCtx) -> (Outcome, Vec<Step>) {
     let mut executed = Vec::new();
     log_line(ctx, &format!("cfg {}", trace.cfg.to_json().to_string()));
     let mut world = match make_world(&trace.cfg, None) {
@@ -207,32 +254,7 @@ pub fn run_property(prop: &str, master: u64, index: u64, thorough: bool, ctx: &m
             ctx.mix(sub.hash);
             ctx.stats.bump("c18.injection_points");
             match out {
-                Outcome::Fail(f, at) => {
-                    // Is the panic the cause? Control runs: the same history with the
-                    // post-panic checks but no panic, and the history without step i.
-                    let mut caused = true;
-                    let mut c1 = trace.clone();
-                    c1.steps[i].panic_at = Some(crate::op::CONTROL);
-                    let mut c2 = trace.clone();
-                    c2.steps.remove(i);
-                    if i > 0 {
-                        c2.steps[i - 1].panic_at = Some(crate::op::CONTROL);
-                    }
-                    for c in [c1, c2] {
-                        let mut sub = RunCtx::new();
-                        sub.collect_shapes = false;
-                        if let (Outcome::Fail(fc, _), _) = replay(&c, &mut sub) {
-                            if fc.oracle == f.oracle && fc.class == f.class {
-                                caused = false;
-                            }
-                        }
-                    }
-                    if caused {
-                        return RunReport { trace: t2, outcome: Outcome::Fail(f, at), evaluations: evals };
-                    }
-                    ctx.stats.bump("c18.failure_not_caused_by_the_fault");
-                    return RunReport { trace: t2, outcome: Outcome::Inconclusive(format!("fails with and without the injected panic: {}", f.detail)), evaluations: evals };
-                }
+                Outcome::Fail(f, at) => return RunReport { trace: t2, outcome: Outcome::Fail(f, at), evaluations: evals },
                 Outcome::Inconclusive(_) => ctx.stats.bump("c18.inconclusive_injections"),
                 Outcome::Pass => {}
             }
